@@ -12,6 +12,9 @@ Exact arithmetic (unit-carrying model of the raw-value site in `Solver.run`):
 * `continued_axis`: a continued run appends `t_last + i·dt`, `1 ≤ i ≤ n`, with `t_last` converted to
   the unit of the new time step (`gridU_si`);
 * `stopped_axis_prefix`: with a stop condition the axis is a prefix of that grid (C16).
+* `schedule_axis_increasing` / `schedule_axis_nodup`: along **every** schedule of runs (fresh, continued, stopped,
+  different time steps, different `Solver` objects), resets and attribute changes with positive time steps the
+  whole recorded axis is strictly increasing — no instant twice, none out of order (`run_axis_increasing` per run).
 Floating point: the step count the code computes is `⌊(T/dt)(1+δ) + 10⁻⁹⌋` with `δ` the
 rounding of the quotient.
 * `count_robust`: for every perturbation with `n·|δ| < c ≤ ½` the guarded floor returns `n`
@@ -144,8 +147,149 @@ theorem arange_fragile (n : ℕ) (hn : 1 ≤ n) (ε : ℚ) (hε : 0 < ε) :
     · push_cast; linarith
     · push_cast; linarith
 
+/-! ### the whole recorded axis, for every schedule of runs, resets and attribute changes -/
+/-- whatever the stop condition, the instants a loop appends are a prefix of its grid -/
+theorem loop_times_any (c : Cfg) (dt : Q) (stop : Option (Rec → Bool)) (ts : List Q) (s s' : St)
+    (h : loop c dt stop ts s = .ok s') :
+    ∃ us vs, ts = us ++ vs ∧ s'.recs.map (·.time) = s.recs.map (·.time) ++ us := by
+  induction ts generalizing s with
+  | nil => simp [loop] at h; subst h; exact ⟨[], [], rfl, by simp⟩
+  | cons t ts ih =>
+    simp only [loop] at h
+    cases h1 : stepAt c dt s t with
+    | error e => simp [h1] at h
+    | ok s1 =>
+      simp only [h1] at h
+      obtain ⟨r, hr, ht⟩ := stepAt_recs c dt s s1 t h1
+      split at h
+      · simp only [Except.ok.injEq] at h; subst h
+        exact ⟨[t], ts, rfl, by simp [hr, ht]⟩
+      · obtain ⟨us, vs, hts, hl⟩ := ih s1 h
+        exact ⟨t :: us, vs, by simp [hts], by rw [hl, hr]; simp [ht]⟩
+
+theorem grid_increasing (t0 dt : Q) (n : Nat) (hdt : 0 < dt) : (grid t0 dt n).Pairwise (· < ·) := by
+  unfold grid
+  rw [List.pairwise_map]
+  refine List.Pairwise.imp ?_ (List.pairwise_lt_range)
+  intro i j hij
+  have : ((i + 1 : Nat) : Q) < ((j + 1 : Nat) : Q) := by exact_mod_cast Nat.succ_lt_succ hij
+  nlinarith
+
+theorem grid_after (t0 dt : Q) (n : Nat) (hdt : 0 < dt) : ∀ t ∈ grid t0 dt n, t0 < t := by
+  intro t ht
+  simp only [grid, List.mem_map, List.mem_range] at ht
+  obtain ⟨i, _, rfl⟩ := ht
+  have : (0 : Q) < ((i + 1 : Nat) : Q) := by exact_mod_cast Nat.succ_pos i
+  nlinarith
+
+theorem le_last_of_increasing (l : List Q) (t0 : Q) (hl : l.Pairwise (· < ·)) (h : l.getLast? = some t0) :
+    ∀ a ∈ l, a ≤ t0 := by
+  obtain ⟨ys, rfl⟩ := List.getLast?_eq_some_iff.mp h
+  rw [List.pairwise_append] at hl
+  intro a ha
+  rcases List.mem_append.mp ha with h1 | h1
+  · exact le_of_lt (hl.2.2 a h1 t0 (by simp))
+  · simp at h1; exact le_of_eq h1
+
+/-- one run (fresh or continued, with any stop condition, whatever the solver-private state) with a positive time
+    step keeps the recorded time axis strictly increasing -/
+theorem run_axis_increasing (c : Cfg) (dt : Q) (n : Nat) (stop : Option (Rec → Bool)) (s s' : St) (hdt : 0 < dt)
+    (hs : (s.recs.map (·.time)).Pairwise (· < ·)) (h : run c dt n stop s = .ok s') :
+    (s'.recs.map (·.time)).Pairwise (· < ·) := by
+  unfold run at h
+  cases hl : lastTime s with
+  | some t0 =>
+    simp only [hl] at h
+    obtain ⟨us, vs, hg, ht⟩ := loop_times_any c dt stop _ s s' h
+    have hgi := grid_increasing t0 dt n hdt
+    rw [hg, List.pairwise_append] at hgi
+    have hlast : (s.recs.map (·.time)).getLast? = some t0 := by
+      simpa [lastTime, List.getLast?_map] using hl
+    rw [ht, List.pairwise_append]
+    refine ⟨hs, hgi.1, ?_⟩
+    intro a ha b hb
+    have h1 := le_last_of_increasing _ t0 hs hlast a ha
+    have h2 := grid_after t0 dt n hdt b (by rw [hg]; exact List.mem_append_left _ hb)
+    exact lt_of_le_of_lt h1 h2
+  | none =>
+    simp only [hl] at h
+    have h0 : s.recs = [] := by
+      simpa [lastTime] using hl
+    split at h
+    · simp at h
+    · rename_i s0 hc
+      obtain ⟨r, hr, hrt⟩ := compute_rec c _ s0 0 hc
+      obtain ⟨us, vs, hg, ht⟩ := loop_times_any c dt stop _ s0 s' h
+      have hgi := grid_increasing 0 dt n hdt
+      rw [hg, List.pairwise_append] at hgi
+      rw [ht, hr, List.pairwise_append]
+      simp only [h0, List.nil_append, List.map_cons, List.map_nil, List.mem_singleton]
+      refine ⟨by simp, hgi.1, ?_⟩
+      intro a ha b hb
+      subst ha
+      rw [hrt]
+      exact grid_after 0 dt n hdt b (by rw [hg]; exact List.mem_append_left _ hb)
+
+/-- every run of the schedule has a positive time step (what `Solver.run` enforces) -/
+def PosSteps : List Op → Prop
+  | [] => True
+  | .run dt _ _ :: os => 0 < dt ∧ PosSteps os
+  | _ :: os => PosSteps os
+
+/-- **Whole-history time axis.** Along every schedule of runs (fresh, continued, stopped early, with different
+    time steps, by different `Solver` objects), resets and attribute changes, the recorded time axis is strictly
+    increasing: no instant is recorded twice and none out of order, for every length of schedule. -/
+theorem schedule_axis_increasing (c : Cfg) (ops : List Op) (hops : PosSteps ops) (s s' : St)
+    (hs : (s.recs.map (·.time)).Pairwise (· < ·)) (h : exec c ops s = .ok s') :
+    (s'.recs.map (·.time)).Pairwise (· < ·) := by
+  induction ops generalizing s with
+  | nil => simp [exec] at h; subst h; exact hs
+  | cons o os ih =>
+    simp only [exec] at h
+    cases ha : applyOp c s o with
+    | error e => simp [ha] at h
+    | ok s1 =>
+      simp only [ha] at h
+      cases o with
+      | run dt n stop =>
+        exact ih hops.2 s1 (run_axis_increasing c dt n stop s s1 hops.1 hs ha) h
+      | reset =>
+        refine ih hops s1 ?_ h
+        simp only [applyOp, reset] at ha
+        split at ha
+        · simp at ha
+        · simp only [Except.ok.injEq] at ha; subst ha; simp
+      | setInitial p v =>
+        simp only [applyOp, Except.ok.injEq] at ha; subst ha
+        exact ih hops { s with pos := p, speed := v } hs h
+      | setPwm p =>
+        simp only [applyOp] at ha
+        split at ha
+        · simp only [Except.ok.injEq] at ha; subst ha; exact ih hops { s with pwm := p } hs h
+        · simp at ha
+      | newSolver =>
+        simp only [applyOp, Except.ok.injEq] at ha; subst ha
+        exact ih hops { s with locked := false } hs h
+
+/-- no instant is recorded twice -/
+theorem schedule_axis_nodup (c : Cfg) (ops : List Op) (hops : PosSteps ops) (p v : Q) (s' : St)
+    (h : exec c ops (St.init p v) = .ok s') : (s'.recs.map (·.time)).Nodup := by
+  have := schedule_axis_increasing c ops hops (St.init p v) s' (by simp [St.init]) h
+  exact this.imp (fun hab => ne_of_lt hab)
+
 /-! ### non-vacuity: dt = 0.35 s, T = 10.5 s (the input that used to overrun) gives 30 steps -/
 example : nSteps Gen.tbl ⟨timeInt, 35/100, 0⟩ ⟨timeInt, 105/10, 0⟩ = 30 := by decide +kernel
 example : nSteps Gen.tbl ⟨timeInt, 1000, 3⟩ ⟨timeInt, 5, 0⟩ = 5 := by decide +kernel
+
+/-! ### non-vacuity: two solvers, two time steps, then a reset and a stopped run -/
+def exCfg : Cfg :=
+  { J0 := 1, links := [⟨2, 9/10, 1/2, true⟩], sl := false, tolW := 0, tolT := 0,
+    motorTorque := fun w D => (1 - w / 100) * 2 * D, motorCurrent := fun _ _ => none,
+    load := fun _ _ _ => 1/10, control := none }
+example : PosSteps [.run (1/4) 2 none, .newSolver, .run (1/3) 2 none] := by simp [PosSteps]
+example : (match exec exCfg [.run (1/4) 2 none, .newSolver, .run (1/3) 2 none] (St.init 0 0) with
+    | .ok s => s.recs.map (·.time) | .error _ => []) = [0, 1/4, 1/2, 5/6, 7/6] := by decide +kernel
+example : (match exec exCfg [.run (1/4) 2 none, .reset, .run (1/2) 4 (some fun r => decide (r.time ≥ 1))] (St.init 0 0) with
+    | .ok s => s.recs.map (·.time) | .error _ => []) = [0, 1/2, 1] := by decide +kernel
 
 end Gearpy.C11
